@@ -562,6 +562,12 @@ func c11Scenarios(cfg runCfg) []Scenario {
 		}
 		i++
 	}
+	for j := 0; j < cfg.n(96, 20); j++ {
+		if cfg.mine(i) {
+			out = append(out, Scenario{Family: "shared-skip-site", Seed: mix(cfg.seed, 11, 13, uint64(j))})
+		}
+		i++
+	}
 	for j := 0; j < cfg.n(16, 10); j++ {
 		if cfg.mine(i) {
 			out = append(out, Scenario{Family: "deep-abandon", Seed: mix(cfg.seed, 11, 12, uint64(j))})
@@ -737,6 +743,42 @@ func c11Body(forced map[uint64]string, randomRate int, salt uint64, leaks *int, 
 
 func c11Run(t *testing.T, sc Scenario, res *Result) {
 	defer os.RemoveAll("testdata")
+	if sc.Family == "shared-skip-site" {
+		// the usual shape "check something (non-fatal), then find the input not applicable (Skip)": the Skip statement
+		// is ONE call site, reached by test cases that have signalled a failure and by ones that have not.  The test
+		// case Check ends up presenting (after minimisation) must be one that signalled.
+		r := newRng(sc.Seed, 0x5c1b)
+		ta, tb2 := int64(r.between(1, 900)), int64(r.between(0, 900))
+		kind := pick(r, []int{fkErrorf, fkError, fkFail, fkErrorEmpty})
+		core := func(x *X) {
+			a := x.draw(rapid.IntRange(0, 1000).AsAny(), "a").(int)
+			b := x.draw(rapid.IntRange(0, 1000).AsAny(), "b").(int)
+			if int64(a) > ta {
+				x.fail(kind, 0)
+			}
+			if int64(b) > tb2 {
+				x.skip("not applicable")
+			}
+		}
+		body := core
+		cr := runBody(body, runOpts{name: "C11skipsite", flags: map[string]string{"rapid.seed": fmt.Sprint(sc.Seed%1000003 + 1), "rapid.checks": "200", "rapid.nofailfile": "true",
+			"rapid.shrinktime": pick(r, []string{"0s", "1s", "5s"})}})
+		res.inc("checks_run")
+		res.inc("family:shared-skip-site")
+		res.nontrivial(fmt.Sprintf("shared-skip-site/%d/%d/%d", ta, tb2, kind))
+		v := judgeReality(cr, true)
+		if v.inconclusive != "" {
+			res.inconclusive(v.inconclusive)
+			return
+		}
+		for _, pr := range v.problems {
+			res.violate(sc, "c11/shared-skip-site/"+firstWords(pr, 5), fmt.Sprintf("non-fatal failure when a > %d, Skip (one call site) when b > %d: %s", ta, tb2, pr), map[string]any{"tb": cr.tb.brief()})
+		}
+		if v.failedReported {
+			res.inc("runs_with_failure")
+		}
+		return
+	}
 	if sc.Family == "deep-abandon" {
 		// hundreds of test cases are abandoned in the middle of a draw, deep inside nested generators (invalid data
 		// unwinding through every frame); the cases in between, in which nothing fails, must not be reported
